@@ -1,7 +1,7 @@
 """C06 - a valid index is always equivalent to one rebuilt from storage (DESIGN 4, C06)."""
 
 from .. import observers, qast, refmodel, world as W
-from .base import E1Check, viol, closure_configs
+from .base import E1Check, viol, closure_configs, wide_configs
 from .c01 import std_ops
 
 
@@ -61,7 +61,7 @@ class C06(E1Check):
     def configs(self):
         # the depth-bounded runs plus runs to the fixpoint within 2 stored points (histories of any length)
         extra = closure_configs(("mem",))[:1] if self.tier == "quick" else closure_configs(("mem", "csv"))
-        return super().configs() + extra
+        return super().configs() + wide_configs(("mem", "csv"), D=2 if self.tier == "quick" else 3) + extra
 
     def budget(self):
         return 600 if self.tier == "quick" else 2400
